@@ -15,6 +15,7 @@ ROOT = "/verif"
 MS = os.path.join(ROOT, "mutsweep")
 RES = os.path.join(MS, "results")
 TMP = "/tmp/mut"
+CASES = "/tmp/mutcases"   # case files and the clean tree's regenerated files
 GOENV = dict(os.environ, GOFLAGS="-mod=mod", GOPROXY="off", GOSUMDB="off", GOTOOLCHAIN="local", GOMEMLIMIT="4GiB")
 PROPS = ["C%02d" % i for i in range(1, 21)]
 
@@ -77,13 +78,13 @@ def phase1(n):
 
 
 def gen_cases():
-    os.makedirs(os.path.join(TMP, "cases"), exist_ok=True)
+    os.makedirs(os.path.join(CASES, "cases"), exist_ok=True)
     drv = os.path.join(ROOT, "lean/.lake/build/bin/driver")
     for p in PROPS:
-        with open(os.path.join(TMP, "cases", p + ".jsonl"), "w") as f:
+        with open(os.path.join(CASES, "cases", p + ".jsonl"), "w") as f:
             subprocess.run([drv, "gen", p, "quick", "1"], stdout=f, check=True)
     # the clean tree's regenerated files
-    g = os.path.join(TMP, "gen-clean"); os.makedirs(g, exist_ok=True)
+    g = os.path.join(CASES, "gen-clean"); os.makedirs(g, exist_ok=True)
     sh([os.path.join(ROOT, "extract", "extract"), "/repo", g])
 
 
@@ -106,8 +107,8 @@ def phase2_one(m):
     if rc != 0:
         res["tie"].append("extract-fails-closed")
     else:
-        for fn in sorted(os.listdir(os.path.join(TMP, "gen-clean"))):
-            a = open(os.path.join(TMP, "gen-clean", fn)).read()
+        for fn in sorted(os.listdir(os.path.join(CASES, "gen-clean"))):
+            a = open(os.path.join(CASES, "gen-clean", fn)).read()
             b = open(os.path.join(g, fn)).read() if os.path.exists(os.path.join(g, fn)) else ""
             if a != b:
                 res["tie"].append(fn)
@@ -128,14 +129,14 @@ def phase2_one(m):
     only = os.environ.get("MUT_PROPS")
     for p in (only.split(",") if only else PROPS):
         t0 = time.time()
-        with open(os.path.join(TMP, "cases", p + ".jsonl")) as f:
+        with open(os.path.join(CASES, "cases", p + ".jsonl")) as f:
             try:
-                pr = subprocess.run([os.path.join(hz, "harness"), "-max-mismatches", "50"], stdin=f, stdout=subprocess.PIPE, stderr=subprocess.DEVNULL,
-                                    env=dict(GOENV, GOMAXPROCS="2"), timeout=600, text=True)
+                pr = subprocess.run([os.path.join(hz, "harness"), "-max-mismatches", os.environ.get("MUT_MAX", "1000")], stdin=f, stdout=subprocess.PIPE, stderr=subprocess.DEVNULL,
+                                    env=dict(GOENV, GOMAXPROCS="2"), timeout=150, text=True)
                 last = pr.stdout.strip().splitlines()[-1] if pr.stdout.strip() else ""
                 sm = json.loads(last)
             except subprocess.TimeoutExpired:
-                res["props"][p] = {"verdict": "timeout"}; continue
+                res["props"][p] = {"verdict": "timeout"}; break
             except Exception as e:
                 res["props"][p] = {"verdict": "crash"}; continue
         judge = corr = known = 0
@@ -155,6 +156,7 @@ def phase2_one(m):
 def phase2(only=None):
     global OPEN
     OPEN = open_classes()
+    os.makedirs(TMP, exist_ok=True)
     surv = [json.loads(l) for l in open(os.path.join(RES, "phase1.jsonl"))]
     surv = [m for m in surv if m["status"] == "survived" and (not only or m["file"] == only)]
     p2 = os.path.join(RES, "phase2.jsonl")
@@ -168,6 +170,53 @@ def phase2(only=None):
             f.write(json.dumps(r) + "\n"); f.flush()
             if i % 10 == 0:
                 print(i, len(todo), flush=True)
+
+
+def phase2b():
+    global OPEN
+    OPEN = open_classes()
+    os.makedirs(TMP, exist_ok=True)
+    p2 = [json.loads(l) for l in open(os.path.join(RES, "phase2.jsonl"))]
+    todo = [{k: v for k, v in r.items() if k not in ("tie", "props")} for r in p2 if verdict(r) in ("SURVIVED", "tie")]
+    with mp.Pool(int(os.environ.get("MUT_WORKERS", "7"))) as pool, open(os.path.join(RES, "phase2b.jsonl"), "a") as f:
+        for i, r in enumerate(pool.imap_unordered(phase2_one, todo)):
+            f.write(json.dumps(r) + "\n"); f.flush()
+            if i % 50 == 0:
+                print(i, len(todo), flush=True)
+
+
+def load_p2():
+    p2 = [json.loads(l) for l in open(os.path.join(RES, "phase2.jsonl"))]
+    pb = os.path.join(RES, "phase2b.jsonl")
+    if os.path.exists(pb):
+        upd = {}
+        for l in open(pb):
+            r = json.loads(l); upd[(r["file"], r["start"], r["end"], r["new"])] = r
+        for r in p2:
+            u = upd.get((r["file"], r["start"], r["end"], r["new"]))
+            if u:
+                r["props"].update(u["props"])
+    return p2
+
+
+def retest(group, props):
+    """re-run the OBSERVABLE mutants of a classified group against freshly generated cases of the given properties"""
+    global OPEN
+    OPEN = open_classes()
+    os.makedirs(TMP, exist_ok=True)
+    drv = os.path.join(ROOT, "lean/.lake/build/bin/driver")
+    for p in props:
+        with open(os.path.join(CASES, "cases", p + ".jsonl"), "w") as f:
+            subprocess.run([drv, "gen", p, "quick", "1"], stdout=f, check=True)
+    gd = "/tmp/m7-" + group
+    ms = json.load(open(gd + "/mutants.json"))
+    cl = {c["idx"]: c for c in json.load(open(gd + "/out/classification.json"))}
+    todo = [m for m in ms if cl.get(m["idx"], {}).get("verdict") == "OBSERVABLE"]
+    os.environ["MUT_PROPS"] = ",".join(props)
+    with mp.Pool(8) as pool:
+        for r in sorted(pool.imap_unordered(phase2_one, todo), key=lambda r: r["idx"]):
+            print(group, r["idx"], "%s:%d" % (r["file"], r["line"]), r["op"], repr(r["old"][:30]), "->", repr(r["new"][:20]),
+                  {k: v["verdict"] for k, v in r["props"].items()}, r["tie"], "|", cl[r["idx"]]["reason"][:90])
 
 
 def verdict(r):
@@ -185,7 +234,7 @@ def report():
     print("phase1:", collections.Counter(r["status"] for r in p1))
     p2f = os.path.join(RES, "phase2.jsonl")
     if not os.path.exists(p2f): return
-    p2 = [json.loads(l) for l in open(p2f)]
+    p2 = load_p2()
     print("phase2:", collections.Counter(verdict(r) for r in p2))
     byfile = collections.defaultdict(collections.Counter)
     for r in p2: byfile[r["file"]][verdict(r)] += 1
@@ -200,4 +249,6 @@ if __name__ == "__main__":
     if c == "phase1": phase1(int(sys.argv[2]) if len(sys.argv) > 2 else 0)
     elif c == "cases": gen_cases()
     elif c == "phase2": phase2(sys.argv[3] if len(sys.argv) > 3 and sys.argv[2] == "--only" else None)
+    elif c == "phase2b": phase2b()
+    elif c == "retest": retest(sys.argv[2], sys.argv[3].split(","))
     elif c == "report": report()
